@@ -247,7 +247,7 @@ def run_arb_case(case, judged):
                     check("next_owner", o == nxt,
                           lambda: f"bus free, owner {po}, requests {pmask:#b}: next owner {o}, round-robin says {nxt}")
                     st["released_transitions"] += 1
-                if n <= 4:
+                if n <= 5:
                     trans.add((n, po, pmask, pbusy, o))
                 if o != po:
                     st["changes"] += 1
